@@ -1450,6 +1450,61 @@ func lateNamedTargetCase(res *vkit.Result, c Case) {
 	res.Eval(vkit.JSON(c), true)
 }
 
+// connectRefusedCase: the connect gun's CONNECT is answered with a refusal — complete; with a body
+// shorter than its declared length on a connection that stays open; with a body that only ends
+// when the connection does (which it does not). Each request is a failed sample and the run goes on.
+func connectRefusedCase(res *vkit.Result, c Case) {
+	hold := make(chan struct{})
+	defer close(hold)
+	rt, err := vkit.NewRawTarget(func(conn net.Conn, n int64) {
+		buf := make([]byte, 4096)
+		_ = conn.SetReadDeadline(time.Now().Add(2 * time.Second))
+		_, _ = conn.Read(buf)
+		switch c.Variant {
+		case "complete":
+			_, _ = conn.Write([]byte("HTTP/1.1 403 Forbidden\r\nContent-Length: 9\r\n\r\nforbidden"))
+			return
+		case "body-never-completed":
+			_, _ = conn.Write([]byte("HTTP/1.1 403 Forbidden\r\nContent-Length: 1000\r\n\r\nno tunnel for you"))
+		default: // body-until-close
+			_, _ = conn.Write([]byte("HTTP/1.0 502 Bad Gateway\r\n\r\nupstream is down"))
+		}
+		<-hold // the connection stays open for as long as the case runs
+	})
+	if err != nil {
+		res.Inconclusive(true, "raw target: %v", err)
+		return
+	}
+	defer rt.Close()
+	path := vkit.WriteMem([]byte("/a t\n/b t\n/c t\n/d t\n"))
+	defer vkit.RemoveMem(path)
+	gun := map[string]any{"type": "connect", "target": rt.Addr, "dial": map[string]any{"timeout": "1s"}}
+	samples, rr, err := runPool(poolConf(map[string]any{"type": "uri", "file": path, "passes": 1}, gun, c.Instances), 45*time.Second)
+	if err != nil {
+		res.Inconclusive(true, "pool rejected: %v", err)
+		return
+	}
+	if rr.Hang || rr.WaitHang {
+		res.Violate(key(c, "hang"), "the run did not end within 45 s (4 requests whose CONNECT is refused):\n"+rr.Stacks, c)
+		return
+	}
+	if rr.Err != nil {
+		res.Violate(key(c, "run-aborted"), fmt.Sprintf("Engine.Run returned %v", rr.Err), c)
+		return
+	}
+	if len(samples) != 4 {
+		res.Violate(key(c, "sample-count"), fmt.Sprintf("4 requests, %d samples", len(samples)), c)
+	}
+	for _, sm := range samples {
+		if sm.Net == 0 {
+			res.Violate(key(c, "failure-not-reported"), fmt.Sprintf("the tunnel was refused, the sample has net code 0: %+v", sm), c)
+			break
+		}
+	}
+	res.Count("http_samples", int64(len(samples)))
+	res.Eval(vkit.JSON(c), true)
+}
+
 func runCase(res *vkit.Result, p *peer, c Case) {
 	defer func() {
 		if r := recover(); r != nil {
@@ -1461,6 +1516,8 @@ func runCase(res *vkit.Result, p *peer, c Case) {
 		http2Case(res, c)
 	case c.Behaviour == "closed-port":
 		closedPortCase(res, c)
+	case c.Behaviour == "connect-refused":
+		connectRefusedCase(res, c)
 	case c.Behaviour == "named-target-comes-up-late":
 		lateNamedTargetCase(res, c)
 	case (c.Gun == "grpc" || c.Gun == "grpc/scenario") && c.Behaviour == "wkt":
@@ -1537,6 +1594,9 @@ func main() {
 		cases = append(cases, Case{Gun: g, Behaviour: "closed-port", Variant: "tls", Instances: 1, Trace: true})
 		cases = append(cases, Case{Gun: g, Behaviour: "named-target-comes-up-late", Instances: 32})
 		cases = append(cases, Case{Gun: g, Behaviour: "named-target-comes-up-late", Instances: 48})
+	}
+	for _, v := range []string{"complete", "body-never-completed", "body-until-close"} {
+		cases = append(cases, Case{Gun: "connect", Behaviour: "connect-refused", Variant: v, Instances: 2})
 	}
 	for _, b := range []string{"h2-statuses", "tls12-client-cert-required", "tls13-client-cert-required", "tls-getconfig-fails", "tls-no-h2"} {
 		cases = append(cases, Case{Gun: "http2", Behaviour: b, Instances: 2, Rounds: 4})
